@@ -84,7 +84,10 @@ SPECIAL_KEYS = ["T", "F", "N", "D0000000000000000", "D8000000000000000", "D7ff00
                 "C6d.6e", "C6d.6f", "C-.-", "c( C6d.6e )", "c( C6d.6e I1 )", "c( C6d.6e D3ff0000000000000 )", "c( C6d.6f I1 )",
                 "R( I1 )", "R( L1 )", "R( S61 )", "R( Y61 )", "R( t( I1 ) )", "t( )", "t( I1 )", "t( T )", "t( L1 )",
                 "t( D3ff0000000000000 )", "t( I1 I2 )", "t( I1 t( I2 ) )", "t( S61 )", "t( Y61 )", "t( B61 )", "t( N )",
-                "t( t( ) )", "t( S61 Y61 )", "t( Y61 S61 )", "X0", "X1"]
+                "t( t( ) )", "t( S61 Y61 )", "t( Y61 S61 )", "X0", "X1",
+                # the three string kinds inside struct-typed keys (Ref id, Call arguments), bare and wrapped once more
+                "R( B61 )", "R( S- )", "R( B- )", "R( Y- )", "t( R( S61 ) I1 )", "t( R( B61 ) I1 )", "t( R( Y61 ) I1 )", "R( R( S61 ) )",
+                "R( R( B61 ) )", "c( C6d.6e S61 )", "c( C6d.6e B61 )", "c( C6d.6e Y61 )", "R( t( S61 ) )", "R( t( B61 ) )"]
 
 
 def rand_key(rng, depth=0):
